@@ -31,6 +31,9 @@ func expandC17(_ *testing.T, seed uint64, tier string) []*core.Plan {
 	p.SetKnob("clean", r.Pick(0, 0, 1))
 	p.SetKnob("actors", r.Pick(1, 2, 3))
 	p.Yield = r.Pick(0, 0, 0, 8)
+	if p.Knob("clean", 0) == 0 && r.Chance(1, 3) {
+		p.SetKnob("sp", 1) // the broker reports the session as present on every reconnect
+	}
 	// failure schedule of the dials
 	nf := r.Range(0, 6)
 	for i := 0; i < nf; i++ {
@@ -40,7 +43,10 @@ func expandC17(_ *testing.T, seed uint64, tier string) []*core.Plan {
 	tag := 0
 	n := r.Range(3, 20)
 	for i := 0; i < n; i++ {
-		switch r.Weighted([]int{6, 2, 5, 8, 3, 1, 1}) {
+		switch r.Weighted([]int{6, 2, 5, 8, 3, 1, 1, 1}) {
+		case 7:
+			// Stop and Start called from two goroutines at the same moment
+			p.Items = append(p.Items, core.Item{K: "stopstart", A: r.Intn(2)})
 		case 0:
 			tag++
 			p.Items = append(p.Items, core.Item{K: "sub", A: r.Intn(3), B: r.Intn(len(svcTopics)), D: tag})
@@ -136,6 +142,7 @@ func runC17(t *testing.T, p *core.Plan) *core.Result {
 	ptxt := core.Bubble(t, p.Seed, p.Yield, func() {
 		w = NewWorld(p.Seed, res)
 		w.Chunk = p.Knob("chunk", 0)
+		w.SPAfterFirst = p.Knob("sp", 0) == 1
 		svc := client.NewService()
 		sess := &ProbeSession{W: w, Inner: session.NewMemorySession()}
 		svc.Session = sess
@@ -185,6 +192,27 @@ func runC17(t *testing.T, p *core.Plan) *core.Result {
 					}
 				})
 				w.Settle()
+			case "stopstart":
+				// both calls are in flight together (needs two idle actors); which
+				// one takes the service mutex first is the scheduler's choice
+				clear := it.A == 1
+				e := epoch
+				r.call("stop", func() {
+					if svc.Stop(clear) {
+						running = false
+						if clear {
+							stopsCleared[e] = true
+						}
+					}
+				})
+				r.call("start", func() {
+					if svc.Start(cfg) {
+						running = true
+						epoch++
+					}
+				})
+				res.Count("concurrent_stop_start", 1)
+				w.Run(11 * time.Second)
 			case "stop":
 				clear := it.A == 1
 				e := epoch
